@@ -98,6 +98,31 @@ func canonTo(b *strings.Builder, v interface{}, depth int) {
 	}
 }
 
+// canonArg renders the argument of a user function for the call log.  A list of more than
+// 200 values (an aggregate over a big document, possibly once per member of that document:
+// quadratic) is rendered by its length, its first and last 16 values and 64 values sampled
+// at equal distances; everything shorter in full.  The reference executions and the call
+// model of C14 use the same rendering.
+func canonArg(v interface{}) string {
+	l, ok := v.([]interface{})
+	if !ok || len(l) <= 200 {
+		return canon(v)
+	}
+	var b strings.Builder
+	fmt.Fprintf(&b, "LIST/%d[", len(l))
+	canonTo(&b, l[:16], 0)
+	b.WriteString("…")
+	step := len(l) / 64
+	for i := 16; i < len(l)-16; i += step {
+		canonTo(&b, l[i], 1)
+		b.WriteByte(',')
+	}
+	b.WriteString("…")
+	canonTo(&b, l[len(l)-16:], 0)
+	b.WriteByte(']')
+	return b.String()
+}
+
 // canonErr renders an error as (type, text).
 func canonErr(err error) string {
 	if err == nil {
